@@ -239,6 +239,8 @@ func (h *VHist) modelApplyR(m *model.World, op VOp) bool {
 		}
 		_ = m.Txn(mp)
 		return true
+	case "badbatch":
+		return false // rejected as a whole: nothing of it may be visible
 	case "create":
 		m.Create(op.DS)
 		return true
